@@ -111,11 +111,13 @@ def nanmask(ctx, lim):
         orig = DV.isnan_
         DV.isnan_ = lambda self: False if self.note == 'finite f(z0)' else orig(self)
         try:
-            ex = explore(ctx.repo, body, pinned=NONZERO_STEPS)
+            runs = explore_orderings(ctx, body)
         finally:
             DV.isnan_ = orig
-        label = 'Limit/z.shape=%s%s/singular at %s/full_output=%s' % (shape, ' (transposed view)' if transposed else '', sorted(nan_at), full_output)
-        for decisions, res, exc in ex.paths:
+        label0 = 'Limit/z.shape=%s%s/singular at %s/full_output=%s' % (shape, ' (transposed view)' if transposed else '', sorted(nan_at), full_output)
+        for hname, ex in runs:
+          label = label0 + hname
+          for decisions, res, exc in ex.paths:
             path = ', '.join('%s=%s' % (d[1][:30], d[0]) for d in decisions) or 'straight'
             if exc is not None:
                 rep.violation('R-NANMASK', 'limits.Limit.__call__', lim.relpath, {'raises': exc.exc_name, 'message': exc.msg[:100], 'path': path},
@@ -142,6 +144,28 @@ def nanmask(ctx, lim):
                             problems.append('element %d: finite value of f was not returned unchanged (%r)' % (c, e))
             rep.check(not problems, 'R-NANMASK', 'limits.Limit.__call__', lim.relpath, {'problems': problems[:3], 'path': path},
                       'finite values unchanged, singular ones replaced elementwise', label, key='nanmask')
+
+
+def explore_orderings(ctx, body):
+    """[(label suffix, Explorer)]: one exploration - or, when the code orders the points of the array (np.sort, np.unique, ..),
+    one for points given in ascending and one for points given in descending order (an ordering hypothesis on the
+    otherwise unordered abstract elements: the property holds for arrays in any order)"""
+    from ..libmodels import NeedsOrdering
+    try:
+        return [('', explore(ctx.repo, body, pinned=NONZERO_STEPS))]
+    except NeedsOrdering:
+        runs = []
+
+        def rank(v, sign):
+            cs = [t[1] for t in tags_of(v) if t[0] == 'x'] if getattr(v, 'sel', None) else []
+            return sign * cs[0] if len(cs) == 1 else None
+        for hname, sign in (('ascending points', 1), ('descending points', -1)):
+            ndarr.ELEMENT_RANK = lambda v, sign=sign: rank(v, sign)
+            try:
+                runs.append(('/' + hname, explore(ctx.repo, body, pinned=NONZERO_STEPS)))
+            finally:
+                ndarr.ELEMENT_RANK = None
+        return runs
 
 
 def make_exact(repo):
@@ -272,7 +296,8 @@ def kinds(ctx, lim):
                 return ndarr.ew1(one, z) if isinstance(z, Arr) else one(z)
             d = C(f, num_steps=9, **kw)
             return d(s.x_array((2,), xk))
-        ex = explore(ctx.repo, body, pinned=NONZERO_STEPS)
+        paths = [p for hname, ex in explore_orderings(ctx, body) for p in ex.paths]
+        ex = type('Paths', (), {'paths': paths})
         bad = [{'raises': exc.exc_name, 'message': exc.msg[:100], 'path': ', '.join('%s=%s' % (d[1][:25], d[0]) for d in dec)}
                for dec, r, exc in ex.paths if exc is not None]
         # the value returned is the complex limit itself (a numpy array is complex as soon as one element is): no projection
